@@ -170,14 +170,18 @@ impl Planner {
                 };
                 let dual = rng.chance(1, 3);
                 let shuffle = if rng.chance(1, 3) { Some(rng.next_u64()) } else { None };
-                spec.pre.push(PreOp { base, dual, op, shuffle });
+                // fault injection: a sixth of the earlier calls unwinds with a
+                // panic somewhere inside simplify (caught by the caller)
+                let abort_at = if self.hooks && op != Op::Battery && rng.chance(1, 6) { Some(1 + rng.below(24) as u64) } else { None };
+                spec.pre.push(PreOp { base, dual, op, shuffle, abort_at });
             }
             if rng.chance(1, 4) {
                 // ... and the last earlier call gets the run's own base symbol
                 // (a repeated call must not see what the first one left behind)
                 let op = if self.prop == "C16" && spec.op == Op::SimplifyPtc { Op::SimplifyPtc } else { Op::IsEuclidean };
                 let shuffle = if rng.chance(1, 2) { Some(rng.next_u64()) } else { None };
-                spec.pre.push(PreOp { base: spec.base.clone(), dual: rng.chance(1, 2), op, shuffle });
+                let abort_at = if self.hooks && rng.chance(1, 4) { Some(1 + rng.below(24) as u64) } else { None };
+                spec.pre.push(PreOp { base: spec.base.clone(), dual: rng.chance(1, 2), op, shuffle, abort_at });
             }
         }
         if interesting && self.hooks && rng.chance(1, 16) {
@@ -428,7 +432,7 @@ impl Planner {
                     s.known_euclidean = true;
                     s.k0 = rng.next_u64();
                     s.k1 = rng.next_u64();
-                    s.pre.push(PreOp { base: a.0.clone(), dual: a.1, op: Op::IsEuclidean, shuffle: None });
+                    s.pre.push(PreOp { base: a.0.clone(), dual: a.1, op: Op::IsEuclidean, shuffle: None, abort_at: None });
                     specs.push(s);
                     n_pairs += 1;
                 }
@@ -477,7 +481,7 @@ impl Planner {
                 let mut r = SplitMix64::new(hmix(&[self.seed, 0x5E55, si as u64]));
                 let len = 3 + r.below(6);
                 // (in literals?, index, dual, shuffle, battery)
-                let mut elems: Vec<(bool, usize, bool, Option<u64>, bool)> = vec![];
+                let mut elems: Vec<(bool, usize, bool, Option<u64>, bool, Option<u64>)> = vec![];
                 for j in 0..len {
                     let (in_lit, ix) = if j > 0 && r.chance(1, 4) {
                         let e = elems[r.below(j)];
@@ -500,10 +504,12 @@ impl Planner {
                     let dual = r.chance(1, 3);
                     let shuffle = if r.chance(1, 2) { Some(r.next_u64()) } else { None };
                     let battery = in_lit && j + 1 < len && r.chance(1, 6);
-                    elems.push((in_lit, ix, dual, shuffle, battery));
+                    // injected abort when this element is replayed as an earlier call
+                    let abort = if self.hooks && !battery && r.chance(1, 6) { Some(1 + r.below(24) as u64) } else { None };
+                    elems.push((in_lit, ix, dual, shuffle, battery, abort));
                 }
                 for j in 1..len {
-                    let (in_lit, ix, dual, shuffle, battery) = elems[j];
+                    let (in_lit, ix, dual, shuffle, battery, _) = elems[j];
                     if battery {
                         continue;
                     }
@@ -520,9 +526,9 @@ impl Planner {
                     s.repr = Self::c17_repr(&mut rng);
                     s.k0 = rng.next_u64();
                     s.k1 = rng.next_u64();
-                    for &(l2, i2, d2, sh2, b2) in &elems[..j] {
+                    for &(l2, i2, d2, sh2, b2, ab2) in &elems[..j] {
                         let it2 = if l2 { &lit[i2] } else { &other[i2] };
-                        s.pre.push(PreOp { base: it2.text.clone(), dual: d2, op: if b2 { Op::Battery } else { Op::IsEuclidean }, shuffle: sh2 });
+                        s.pre.push(PreOp { base: it2.text.clone(), dual: d2, op: if b2 { Op::Battery } else { Op::IsEuclidean }, shuffle: sh2, abort_at: ab2 });
                     }
                     specs.push(s);
                 }
@@ -734,7 +740,7 @@ impl Planner {
                     s.known_euclidean = y.1;
                     s.k0 = rng.next_u64();
                     s.k1 = rng.next_u64();
-                    s.pre.push(PreOp { base: x.0.clone(), dual: false, op: Op::SimplifySelf, shuffle: None });
+                    s.pre.push(PreOp { base: x.0.clone(), dual: false, op: Op::SimplifySelf, shuffle: None, abort_at: None });
                     specs.push(s);
                 }
             }
@@ -750,7 +756,7 @@ impl Planner {
                         s.expect = Expect::SameAsInput;
                         s.k0 = rng.next_u64();
                         s.k1 = rng.next_u64();
-                        s.pre.push(PreOp { base: crate::gen::lens_space(p, q1).to_text(), dual: false, op: Op::SimplifySelf, shuffle: None });
+                        s.pre.push(PreOp { base: crate::gen::lens_space(p, q1).to_text(), dual: false, op: Op::SimplifySelf, shuffle: None, abort_at: None });
                         specs.push(s);
                     }
                 }
@@ -772,7 +778,7 @@ impl Planner {
                     let mut r = SplitMix64::new(hmix(&[self.seed, 0x5E56, si as u64]));
                     let len = 3 + r.below(6);
                     // (item, run as is_euclidean/battery instead of simplify: 0 = simplify, 1 = is_euclidean, 2 = battery)
-                    let mut elems: Vec<(It, u8)> = vec![];
+                    let mut elems: Vec<(It, u8, Option<u64>)> = vec![];
                     for j in 0..len {
                         let it = if j > 0 && r.chance(1, 4) {
                             elems[r.below(j)].0.clone()
@@ -794,10 +800,11 @@ impl Planner {
                             },
                             _ => 0,
                         };
-                        elems.push((it, kind));
+                        let abort = if self.hooks && kind != 2 && r.chance(1, 6) { Some(1 + r.below(24) as u64) } else { None };
+                        elems.push((it, kind, abort));
                     }
-                    let pre_of = |e: &(It, u8)| -> PreOp {
-                        match &e.0 {
+                    let pre_of = |e: &(It, u8, Option<u64>)| -> PreOp {
+                        let mut p = match &e.0 {
                             It::Ptc(i, d) => PreOp {
                                 base: corpus.k0[*i].text.clone(),
                                 dual: *d,
@@ -807,10 +814,13 @@ impl Planner {
                                     _ => Op::SimplifyPtc,
                                 },
                                 shuffle: None,
+                                abort_at: None,
                             },
-                            It::Cube(i) => PreOp { base: family[*i].0.clone(), dual: false, op: Op::SimplifySelf, shuffle: None },
-                            It::Lens(p, q) => PreOp { base: crate::gen::lens_space(*p, *q).to_text(), dual: false, op: Op::SimplifySelf, shuffle: None },
-                        }
+                            It::Cube(i) => PreOp { base: family[*i].0.clone(), dual: false, op: Op::SimplifySelf, shuffle: None, abort_at: None },
+                            It::Lens(p, q) => PreOp { base: crate::gen::lens_space(*p, *q).to_text(), dual: false, op: Op::SimplifySelf, shuffle: None, abort_at: None },
+                        };
+                        p.abort_at = e.2;
+                        p
                     };
                     for j in 1..len {
                         if elems[j].1 != 0 {
